@@ -35,10 +35,16 @@ def A(k="", v="", vs=(), src=(), form="pairs", hasdef=False, idx=0, idx2=0) -> d
 
 
 # ---------------------------------------------------------------------- encoding of results
+SCALAR_MARK = 1114112      # first integer that is not a code point: tags the repr of a non-str scalar value
+
+
 def _v(x):
-    """a stored value -> code points (FileStorage values are named by their filename)"""
+    """a stored value -> code points (FileStorage values are named by their filename; int / float / bool
+    values, which only the repository's tests store, by a marker + their type-qualified repr)"""
     if isinstance(x, str):
         return cps(x)
+    if type(x) in (int, float, bool):
+        return [SCALAR_MARK] + cps(type(x).__name__ + ":" + repr(x))
     fn = getattr(x, "filename", None)
     if isinstance(fn, str) and type(x).__name__ == "FileStorage":
         return cps(fn)
@@ -224,8 +230,9 @@ def _rd(o, n, r, k="", i=0, j=0):
     return {"o": o, "n": n, "k": cps(k), "i": i, "j": j, "r": r}
 
 
-def reads(idx: int, kind: str, o, keys) -> list:
-    """ALL public reads of one object (idx = its number in the trace)."""
+def reads(idx: int, kind: str, o, keys, conv: bool = True) -> list:
+    """ALL public reads of one object (idx = its number in the trace); conv=False leaves out the
+    type=int conversion reads (for sessions whose values are not plain digit / non-numeric strings)."""
     out = []
     if kind == "Environ" or kind in OPAQUE:
         return out
@@ -251,7 +258,7 @@ def reads(idx: int, kind: str, o, keys) -> list:
                 _rd(idx, "getitem", attempt("val", lambda: o[k]), k),
                 _rd(idx, "contains", attempt("bool", lambda: k in o), k),
             ]
-            if kind != "FileMultiDict":
+            if kind != "FileMultiDict" and conv:
                 out += [_rd(idx, "getlist_int", attempt("ints", lambda: o.getlist(k, type=int)), k),
                         _rd(idx, "get_int", attempt("int", lambda: o.get(k, type=int)), k)]
         return out
@@ -282,9 +289,10 @@ def reads(idx: int, kind: str, o, keys) -> list:
                 out += [
                     _rd(idx, "get_all", attempt("list", lambda: o.get_all(k)), k),
                     _rd(idx, "get_default", attempt("val", lambda: o.get(k, DFLT)), k),
-                    _rd(idx, "getlist_int", attempt("ints", lambda: o.getlist(k, type=int)), k),
-                    _rd(idx, "get_int", attempt("int", lambda: o.get(k, type=int)), k),
                 ]
+                if conv:
+                    out += [_rd(idx, "getlist_int", attempt("ints", lambda: o.getlist(k, type=int)), k),
+                            _rd(idx, "get_int", attempt("int", lambda: o.get(k, type=int)), k)]
         if not eh:
             n = len(o)
             for i in range(-(n + 1), n + 1):
